@@ -146,6 +146,21 @@ def _run_one_shard(prop_id: str, spec: dict, timeout: float) -> dict | None:
             pass
 
 
+def _crash_site_in_repo(err: str) -> str | None:
+    """'<ExcType: message> at <file>:<line> in <func>' if the innermost traceback frame of a crashed shard lies in REPO."""
+    import re
+    frames = re.findall(r'File "([^"]+)", line (\d+), in (\S+)', err)
+    if not frames:
+        return None
+    path, line, func = frames[-1]
+    repo = os.path.realpath(REPO)
+    if not os.path.realpath(path).startswith(repo + os.sep):
+        return None
+    last = [ln for ln in err.strip().splitlines() if ln and not ln.startswith(" ")]
+    exc = last[-1][:300] if last else "exception"
+    return f"{exc} at {os.path.relpath(os.path.realpath(path), repo)}:{line} in {func}"
+
+
 def run_check(mod, tier: str, seed: int, jobs: int = 0) -> int:
     """Runs all shards, merges, writes evidence, prints verdict lines, returns exit code."""
     t0 = time.time()
@@ -159,6 +174,22 @@ def run_check(mod, tier: str, seed: int, jobs: int = 0) -> int:
     errors = [o["_error"] for o in outs if o is not None and "_error" in o]
     good = [o for o in outs if o is not None and "_error" not in o]
     m = merge(good)
+    # A shard that died of an exception raised *inside the code under test* (innermost traceback frame below REPO) while
+    # the harness performed an operation of the property's workload is a witness, not a harness problem: the workload
+    # only makes calls that never raise on the unchanged tree. It is reported as an unclassified violation (the shard
+    # could not go on to judge the property itself, which the message says); crashes inside the harness stay
+    # "inconclusive".
+    for spec, o in zip(specs, outs):
+        if o is not None and "_error" in o:
+            where = _crash_site_in_repo(o["_error"])
+            if where:
+                m["viol_counts"]["UNCLASSIFIED"] += 1
+                if sum(1 for w in m["violations"] if w["mech"] is None) < 3:
+                    m["violations"].append({
+                        "mech": None,
+                        "msg": f"the code under test raised an uncaught exception during the property's workload and the "
+                               f"monitor could not continue: {where}",
+                        "case": {"shard_spec": spec, "stderr_tail": o["_error"][-1500:]}})
     known = load_known()
     open_keys = {k for k, e in known.items() if e["property"] == prop_id and e["status"] == "open"}
 
